@@ -50,7 +50,7 @@ def _find_children_after_token(node: Node, token: str) -> list[Node]:
 
 def _find_after_token(node: Node, token: str, exclude_types: set[str] | None = None) -> Node | None:
     """Find first child after a specific token, excluding certain types."""
-    exclude = exclude_types or set()
+    exclude = (exclude_types or set()) | {"comment"}  # a comment between "=" and the value is not the value
     remaining = _find_children_after_token(node, token)
     return next((c for c in remaining if c.type not in exclude), None)
 
